@@ -210,7 +210,7 @@ func (r *rewriter) addP(prio int, from, to token.Pos, segs ...seg) {
 	r.used = true
 }
 
-func lit(s string) seg             { return seg{lit: s} }
+func lit(s string) seg                     { return seg{lit: s} }
 func (r *rewriter) rng(a, b token.Pos) seg { return seg{from: r.off(a), to: r.off(b)} }
 func (r *rewriter) node(n ast.Node) seg    { return r.rng(n.Pos(), n.End()) }
 
@@ -342,6 +342,15 @@ func (r *rewriter) atomics(f *ast.File) {
 			} else if sel == nil {
 				fn, _ = r.pkg.TypesInfo.Uses[fun.Sel].(*types.Func)
 			}
+		}
+		if fn != nil && fn.Pkg() != nil && fn.Pkg().Path() == "os/exec" && fn.Name() == "Wait" {
+			// (*exec.Cmd).Wait is the seam for the simulated child process: the library's own
+			// process watcher stays real, only "the child has exited" comes from the simulator
+			if sel, ok := call.Fun.(*ast.SelectorExpr); ok && len(call.Args) == 0 {
+				r.add(call.Pos(), call.End(), lit(hookName+".CmdWait("), r.node(sel.X), lit(")"))
+				st.Rewritten["cmd_wait"]++
+			}
+			return true
 		}
 		if fn == nil || fn.Pkg() == nil || fn.Pkg().Path() != "sync/atomic" {
 			return true
